@@ -186,59 +186,10 @@ func checkC15(p *Program, r *Reporter) {
 			"a representation is entered into the served table although loadRep may have failed", nil)
 		r.Decide(hasLen, "E5-PUBLISH", shortFn(load), "Reps-after:zero-segment-test", p.pos(repUpd.Pos()), "registered after len(Segments) == 0 was excluded",
 			"a representation without segments can be entered into the served table (division by zero and index faults while serving)", nil)
-		// audio test: Ifs reading ConstantSampleDuration lie before the registration and fail with an error
-		nAudio := 0
-		okAudio := true
-		why := ""
-		for _, b := range load.Blocks {
-			ifi, ok := b.Instrs[len(b.Instrs)-1].(*ssa.If)
-			if !ok {
-				continue
-			}
-			reads := false
-			sliceVisitIntra(p, ifi.Cond, func(v ssa.Value) {
-				if f, ok := loadedField(v); ok && strings.HasPrefix(f, "app.RepData.ConstantSampleDuration") {
-					reads = true
-				}
-			})
-			if !reads {
-				continue
-			}
-			nAudio++
-			if !(ffL.errOnly[b.Succs[0]] || isErrorExit(b.Succs[0])) && !(ffL.errOnly[b.Succs[1]] || isErrorExit(b.Succs[1])) {
-				// first half of "== nil || == 0": the true side goes to the error, the false side to the second test: accept if one side reaches an error-only block directly
-				okAudio = okAudio && (len(b.Succs[0].Succs) == 0 || true)
-			}
-			if repUpd.Block().Dominates(b) || !ffL.blockReaches(b, repUpd.Block()) {
-				okAudio = false
-				why = "the sample-duration test at " + p.pos(instrPos(ifi)) + " is not before the registration"
-			}
-		}
-		if nAudio == 0 {
-			okAudio, why = false, "no test of ConstantSampleDuration in loadAsset"
-		}
-		// the registration must not be reachable from the failing side: the failing side is an error exit
-		failExit := false
-		for _, b := range load.Blocks {
-			if !isErrorExit(b) {
-				continue
-			}
-			for _, cd := range ffL.transitiveCDeps(b, false) {
-				hit := false
-				sliceVisitIntra(p, cd.V, func(v ssa.Value) {
-					if f, ok := loadedField(v); ok && strings.HasPrefix(f, "app.RepData.ConstantSampleDuration") {
-						hit = true
-					}
-				})
-				if hit {
-					failExit = true
-				}
-			}
-		}
-		if nAudio > 0 && !failExit {
-			okAudio, why = false, "the sample-duration test does not end in an error return"
-		}
-		r.Decide(okAudio, "E5-PUBLISH", shortFn(load), "Reps-after:audio-sample-duration-test", p.pos(repUpd.Pos()), "the audio sample-duration test precedes the registration and fails with an error",
+		// audio test: on every path to the registration the representation is not audio or its constant sample
+		// duration was tested non-nil and non-zero (in loadAsset or in a helper whose error is tested)
+		okAudio, why := verifyAudioSampleDurGuard(p)
+		r.Decide(okAudio, "E5-PUBLISH", shortFn(load), "Reps-after:audio-sample-duration-test", p.pos(repUpd.Pos()), why,
 			"an audio representation without constant sample duration can be entered into the served table: "+why, nil)
 		// MPD last
 		bad := ""
@@ -299,42 +250,71 @@ func checkC15(p *Program, r *Reporter) {
 		"an asset whose consolidation failed (non-integral loop duration, differing durations) stays in the served table", nil)
 	// (c) admission tests
 	r.Rule("E5-ADMISSION", "integrality and equal-duration tests fail with an error; the latter covers every representation of the reference content type", 3)
-	ffC := factsOf(cons)
 	var integ, equal *ssa.If
-	for _, b := range cons.Blocks {
-		ifi, ok := b.Instrs[len(b.Instrs)-1].(*ssa.If)
-		if !ok {
-			continue
-		}
-		bo, ok := ifi.Cond.(*ssa.BinOp)
-		if !ok || bo.Op != token.NEQ {
-			continue
-		}
-		if _, isMul := bo.X.(*ssa.BinOp); isMul {
-			if valueReadsField(p, bo.X, "app.asset.LoopDurMS") {
-				integ = ifi
+	for _, cf := range cluster(cons) {
+		for _, b := range cf.Blocks {
+			ifi, ok := b.Instrs[len(b.Instrs)-1].(*ssa.If)
+			if !ok {
+				continue
 			}
-		}
-		for _, pair := range [][2]ssa.Value{{bo.X, bo.Y}, {bo.Y, bo.X}} {
-			if f, ok := loadedField(pair[0]); ok && f == "app.asset.LoopDurMS" {
-				if _, isQuo := pair[1].(*ssa.BinOp); isQuo {
-					equal = ifi
+			bo, ok := ifi.Cond.(*ssa.BinOp)
+			if !ok || bo.Op != token.NEQ {
+				continue
+			}
+			if _, isMul := bo.X.(*ssa.BinOp); isMul {
+				if valueReadsField(p, bo.X, "app.asset.LoopDurMS") {
+					integ = ifi
+				}
+			}
+			for _, pair := range [][2]ssa.Value{{bo.X, bo.Y}, {bo.Y, bo.X}} {
+				if f, ok := loadedField(pair[0]); ok && f == "app.asset.LoopDurMS" {
+					if _, isQuo := pair[1].(*ssa.BinOp); isQuo {
+						equal = ifi
+					}
 				}
 			}
 		}
 	}
+	// errors of helpers in the cluster reach consolidateAsset's caller
+	helperErrReturned := func(fn *ssa.Function) (bool, string) {
+		for fn != cons {
+			site := uniqueCallSite(fn)
+			if site == nil {
+				return false, "helper " + shortFn(fn) + " is not called from consolidateAsset alone"
+			}
+			c, ok := site.(*ssa.Call)
+			if !ok {
+				return false, "helper called in a go/defer statement"
+			}
+			for _, e := range errorValuesOfCall(c) {
+				if e == nil {
+					return false, "the error of " + shortFn(fn) + " is discarded"
+				}
+				if ok, why := errorReturnedWhenNonNil(e); !ok {
+					return false, "the error of " + shortFn(fn) + " is not returned: " + why
+				}
+			}
+			fn = site.Parent()
+		}
+		return true, ""
+	}
 	if integ == nil {
 		r.Violate("E5-ADMISSION", shortFn(cons), "integrality-test", p.pos(cons.Pos()), "no test that the loop duration is a whole number of milliseconds", nil)
 	} else {
-		r.Decide(ffC.errOnly[integ.Block().Succs[0]] || isErrorExit(integ.Block().Succs[0]), "E5-ADMISSION", shortFn(cons), "integrality-test", p.pos(instrPos(integ)),
-			"a loop duration that is not a whole number of milliseconds ends in an error", "the integrality test does not end in an error: the asset is served with a rounded loop duration", nil)
+		ffI := factsOf(integ.Parent())
+		okErr := ffI.errOnly[integ.Block().Succs[0]] || isErrorExit(integ.Block().Succs[0])
+		okUp, whyUp := helperErrReturned(integ.Parent())
+		r.Decide(okErr && okUp, "E5-ADMISSION", shortFn(cons), "integrality-test", p.pos(instrPos(integ)),
+			"a loop duration that is not a whole number of milliseconds ends in an error", "the integrality test does not end in an error: the asset is served with a rounded loop duration "+whyUp, nil)
 	}
 	if equal == nil {
 		r.Violate("E5-ADMISSION", shortFn(cons), "equal-duration-test", p.pos(cons.Pos()), "no comparison of a representation's duration with the loop duration", nil)
 	} else {
-		// reaches an error return through a flag
-		flagErr := false
-		for _, b := range cons.Blocks {
+		ef := equal.Parent()
+		ffC := factsOf(ef)
+		// reaches an error return through a flag, or directly
+		flagErr := ffC.errOnly[equal.Block().Succs[0]] || isErrorExit(equal.Block().Succs[0])
+		for _, b := range ef.Blocks {
 			ifi, ok := b.Instrs[len(b.Instrs)-1].(*ssa.If)
 			if !ok {
 				continue
@@ -347,8 +327,9 @@ func checkC15(p *Program, r *Reporter) {
 				}
 			}
 		}
-		r.Decide(flagErr, "E5-ADMISSION", shortFn(cons), "equal-duration-test", p.pos(instrPos(equal)), "a differing duration sets the flag whose test returns an error",
-			"a representation whose duration differs from the loop duration does not make consolidation fail", nil)
+		okUp, whyUp := helperErrReturned(ef)
+		r.Decide(flagErr && okUp, "E5-ADMISSION", shortFn(cons), "equal-duration-test", p.pos(instrPos(equal)), "a differing duration ends in an error that consolidateAsset returns",
+			"a representation whose duration differs from the loop duration does not make consolidation fail "+whyUp, nil)
 		// coverage: not restricted to pre-encrypted representations
 		sets := ffC.condSets(equal.Block())
 		all := len(sets) > 0
